@@ -81,6 +81,7 @@ def run(ctx, rep):
     NR.parse_direct(rep, lib)
     from rules import parser_rules as _PRS
     _PRS.digits(rep, lib)
+    _PRS.reader_state(rep, lib)   # a token buffer that survives a value would put stale digits in front of an integer
     NR.int_ctor(rep, lib)
     NR.float_window(rep, lib)
     NR.float_ctor(rep, lib)
